@@ -36,6 +36,9 @@ SHAPES = {
     ],
     'G8': [_alg('ta', 'a'), _alg('tb', 'b', refs=[('ta', 'a')]), _alg('tc', 'c', 'analysis', refs=[('tb', 'b')])],
     'G9': [_alg('ta', 'a'), _alg('tb', 'b', 'regress', refs=[('ta', 'a')])],
+    # an analysis and a task that do not depend on each other (released in one batch), both orders
+    'G13': [_alg('ta', 'a', 'analysis'), _alg('tb', 'b')],
+    'G14': [_alg('ta', 'a'), _alg('tb', 'b', 'analysis')],
     # value-level references: b needs only a.sv.v0, c only a.sv.v1
     'G10': [
         _alg('ta', 'a', svs={'sv': ['v0', 'v1']}),
@@ -96,6 +99,8 @@ class World:
         self.fsm = FakeFSM()
         self.chron = []
         self.next_calls = 0
+        self.tick_calls = 0
+        self.fail_at = None
         self.runid_seq = 100
         dawgie.context.fsm = self.fsm
         dawgie.context.git_rev = 'r1'
@@ -136,6 +141,10 @@ class World:
 
     def _next(self):
         self.next_calls += 1
+        self.tick_calls += 1
+        if self.fail_at is not None and self.tick_calls == self.fail_at:
+            # the database is allowed to fail here (farm.dispatch says so)
+            raise RuntimeError('database unavailable')
         self.runid_seq += 1
         return self.runid_seq
 
@@ -168,6 +177,8 @@ class World:
         self.fsm.archive_deactivates = False
         del self.chron[:]
         self.next_calls = 0
+        self.tick_calls = 0
+        self.fail_at = None
         self.runid_seq = 100
         self.hands = []  # every Hand ever connected (with its transport)
         self.sent = []  # task MSGs written to a worker transport, in order
@@ -213,10 +224,15 @@ class World:
                     new.append((m, h))
         return new
 
-    def dispatch(self, workers=2):
+    def dispatch(self, workers=2, fail_at=None):
+        """one dispatcher tick; fail_at=n: the n-th run-id draw of this tick raises"""
         for _ in range(workers):
             self.add_worker()
-        farm.dispatch()
+        self.tick_calls, self.fail_at = 0, fail_at
+        try:
+            farm.dispatch()
+        finally:
+            self.fail_at = None
         return self.collect()
 
     def inflight(self):
